@@ -19,6 +19,11 @@ func init() {
 	Registry["C11"] = Spec{
 		Pkgs: map[string][]string{"v2": {"resolve"}},
 		Run:  runC11,
+		Thorough: func(r *fw.Run) {
+			workspaceWhoMayCall(r, []wsCallRule{
+				{Rule: "C11-T1", What: "the single-flight tables are driven only from package resolve (GetOrCreate / FinishOk / FinishErr / GetOrCreateItem / Finish)", Callees: []string{"resolve:InboundRequestSingleFlight.GetOrCreate", "resolve:InboundRequestSingleFlight.FinishOk", "resolve:InboundRequestSingleFlight.FinishErr", "resolve:SubgraphRequestSingleFlight.GetOrCreateItem", "resolve:SubgraphRequestSingleFlight.Finish"}, Allowed: []string{"resolve:"}, Why: "the in-flight tables are manipulated from another package: the exactly-once Finish discipline the resolver keeps (C11-R1) says nothing about that caller — followers wedge or the wake-up channel is closed twice", Expected: 9},
+			})
+		},
 		Explanation: "Decides the structural half of 'de-duplication never wedges or crashes and shares only identical queries': on every path of the two coalescing call sites the leader finishes exactly once (zero ⇒ followers wedge, two ⇒ close of closed channel); " +
 			"every field followers read is written before the wake-up close, and a publish decision that reads the follower counter is atomic with follower registration; shared records are written only on the leader path and shared buffers are never index-stored/appended; " +
 			"both keys derive from all their documented components; sharing is dominated by the query-only eligibility tests; every wait on a shared record can also leave through the participant's own context; " +
